@@ -42,12 +42,15 @@ int make_object(int kind, const std::string &dir)
 
 bool is_free(int fd) { return fcntl(fd, F_GETFD) < 0 && errno == EBADF; }
 
-CaseResult run_case(Tape &t, long)
+// One start under one generated limit / descriptor set. Several rounds run in
+// the same process: whatever the library remembers from an earlier start (a
+// cached limit, say) must not matter for a later one.
+CaseResult one_round(Tape &t, int round)
 {
   CaseResult res;
-  vs_init();
   vs_reset();
-  const std::string root = fw::case_dir();
+  const std::string root = fw::case_dir() + "/r" + std::to_string(round);
+  mkdir(root.c_str(), 0755);
   Puppet pup(root + "/ctl");
   if (!pup.error().empty()) {
     res.inconclusive("puppet setup: " + pup.error());
@@ -245,6 +248,31 @@ CaseResult run_case(Tape &t, long)
   if (!why.empty()) res.fail(sig, "after destroy: " + why);
   for (int fd : placed_fds) close(fd);
   return res;
+}
+
+CaseResult run_case(Tape &t, long)
+{
+  vs_init();
+  int rounds = (int) t.weighted({ 5, 3, 2 }) + 1;
+  CaseResult all;
+  std::vector<std::string> descs;
+  uint64_t h = 0;
+  for (int r = 0; r < rounds; r++) {
+    CaseResult one = one_round(t, r);
+    descs.push_back(one.describe);
+    h = mix(h, one.hash);
+    all.nontrivial = all.nontrivial || one.nontrivial;
+    for (auto &c : one.classes) all.classes.push_back(c);
+    if (one.kind == CaseResult::FAIL) {
+      all.fail(one.sig, "start #" + std::to_string(r + 1) + " of " + std::to_string(rounds) + " in this process: " + one.msg);
+      break;
+    }
+    if (one.kind == CaseResult::INCONCLUSIVE && all.kind == CaseResult::PASS && r == 0) all.inconclusive(one.msg);
+  }
+  if (rounds > 1) all.cls("several-starts-in-one-process");
+  all.hash = mix(h, (uint64_t) rounds);
+  all.describe = J().kv("starts", rounds).raw("rounds", jarr(descs)).str();
+  return all;
 }
 
 }  // namespace
